@@ -155,6 +155,7 @@ def classify(diag):
 
 
 def functions_of(js, crate):
+    crate = crate.split('.')[0] if False else crate
     out = []
     if not js:
         return out
@@ -189,7 +190,7 @@ def fn_display(it):
 
 def run_unit(unit_dir, rlimit=100, probes=True, keep=True):
     unit = os.path.basename(os.path.normpath(unit_dir))
-    out_dir = os.path.join(BUILD, 'verus', unit)
+    out_dir = os.path.join(BUILD, 'verus', '%s.%d' % (unit, os.getpid()))
     os.makedirs(out_dir, exist_ok=True)
     res = {'unit': unit, 'status': 'ok', 'failures': [], 'functions': [], 'probes': None,
            'trusted': [], 'dropped': [], 'items': [], 'erasure_ok': None, 'wall_s': 0.0,
@@ -355,6 +356,9 @@ def run_unit(unit_dir, rlimit=100, probes=True, keep=True):
             missing = missing + missing_loop
             res.update(status='undecided', reason='vacuity probe verified (contradictory precondition?): %s' % missing[:5])
     res['total_wall_s'] = time.time() - t00
+    if not os.environ.get('VERIF_KEEP_BUILD'):
+        import shutil
+        shutil.rmtree(out_dir, ignore_errors=True)
     return res
 
 
